@@ -3,7 +3,10 @@ package c13
 import (
 	"fmt"
 	"math"
+	"os"
+	"os/exec"
 	"strconv"
+	"strings"
 	"sync"
 	"testing"
 	"time"
@@ -18,7 +21,12 @@ import (
 
 const property = "C13"
 
-func TestMain(m *testing.M) { vk.Main(m, property) }
+func TestMain(m *testing.M) {
+	if os.Getenv("VK_C13_REALCLOCK") != "" {
+		os.Exit(realClockChild()) // a process of its own: nothing in it has touched the framework's cached clock
+	}
+	vk.Main(m, property)
+}
 
 func TestAAACorpus(t *testing.T)    { vk.TestCorpus(t, property) }
 func TestAAAWitnesses(t *testing.T) { vk.TestWitnesses(t, property) }
@@ -453,3 +461,129 @@ var propConc = vk.Register(&vk.Prop[ConcCase]{Property: property, Name: "concurr
 	}})
 
 func TestConcurrent(t *testing.T) { propConc.Run(t) }
+
+// ---- the limiter's own clock, in a process that nobody else has started it in -----------------------------------------
+//
+// Everything above drives time through the virtual clock, i.e. by owning the cached timestamp the limiter reads; whether
+// the limiter keeps that timestamp running by itself cannot be seen that way. This test re-executes the test binary
+// (environment VK_C13_REALCLOCK): in the child no harness code touches the clock, the limiter is configured with an
+// external storage that keeps time by the wall clock (so the in-memory store, which would start the clock, is never
+// built), and real seconds pass. Oracle (fixed window): Max=1, Expiration=2 s - after the first request one request
+// every 500 ms is sent for 7 s; every one of them rewrites the stored entry. Some request from 4.5 s on at the latest
+// must be admitted again: by then more than two windows have passed, the budget is not exhausted.
+
+type wallStorage struct {
+	mu sync.Mutex
+	m  map[string]wallEntry
+}
+
+type wallEntry struct {
+	v   []byte
+	exp time.Time
+}
+
+func (s *wallStorage) Get(k string) ([]byte, error) {
+	s.mu.Lock()
+	defer s.mu.Unlock()
+	e, ok := s.m[k]
+	if !ok || (!e.exp.IsZero() && time.Now().After(e.exp)) {
+		return nil, nil
+	}
+	return append([]byte(nil), e.v...), nil
+}
+
+func (s *wallStorage) Set(k string, v []byte, ttl time.Duration) error {
+	s.mu.Lock()
+	defer s.mu.Unlock()
+	e := wallEntry{v: append([]byte(nil), v...)}
+	if ttl > 0 {
+		e.exp = time.Now().Add(ttl)
+	}
+	s.m[k] = e
+	return nil
+}
+
+func (s *wallStorage) Delete(k string) error { s.mu.Lock(); delete(s.m, k); s.mu.Unlock(); return nil }
+func (s *wallStorage) Reset() error {
+	s.mu.Lock()
+	s.m = map[string]wallEntry{}
+	s.mu.Unlock()
+	return nil
+}
+func (s *wallStorage) Close() error { return nil }
+
+func realClockChild() int {
+	var wg sync.WaitGroup
+	// (fixed window only: under the sliding window fiber counts rejected requests as hits, so a client that keeps asking
+	// every 500 ms stays rejected - whether those are "hits" is not something the statement settles, see the history oracle)
+	results := make([]string, 1)
+	for i, sliding := range []bool{false} {
+		wg.Add(1)
+		go func(i int, sliding bool) {
+			defer wg.Done()
+			cfg := limiter.Config{Max: 1, Expiration: 2 * time.Second, Storage: &wallStorage{m: map[string]wallEntry{}}, KeyGenerator: func(fiber.Ctx) string { return "k" }}
+			name := "fixed"
+			if sliding {
+				cfg.LimiterMiddleware = limiter.SlidingWindow{}
+				name = "sliding"
+			}
+			app := fiber.New()
+			app.Use(limiter.New(cfg))
+			app.Get("/", func(c fiber.Ctx) error { return c.SendString("ok") })
+			start := time.Now()
+			var hist []string
+			admittedLate := false
+			for n := 0; time.Since(start) < 7*time.Second; n++ {
+				st := vk.Do(app, "GET", "/").Response.StatusCode()
+				at := time.Since(start)
+				hist = append(hist, fmt.Sprintf("%.1fs:%d", at.Seconds(), st))
+				if n == 0 && st != 200 {
+					results[i] = fmt.Sprintf("%s: the first request was answered %d", name, st)
+					return
+				}
+				if n > 0 && st == 200 && at >= 1500*time.Millisecond {
+					admittedLate = true
+					break
+				}
+				time.Sleep(500 * time.Millisecond)
+			}
+			if !admittedLate {
+				results[i] = fmt.Sprintf("%s window, Max 1 per 2 s, external storage on the wall clock, one request every 500 ms for 7 s: after the first request none was ever admitted again (%s)", name, strings.Join(hist, " "))
+			}
+		}(i, sliding)
+	}
+	wg.Wait()
+	for _, r := range results {
+		if r != "" {
+			fmt.Println("REALCLOCK FAIL: " + r)
+			return 0
+		}
+	}
+	fmt.Println("REALCLOCK OK")
+	return 0
+}
+
+type ClockCase struct{ Note string }
+
+var propClock = vk.Register(&vk.Prop[ClockCase]{Property: property, Name: "realclock", Gen: func(*rapid.T) ClockCase { return ClockCase{} },
+	Check: func(ClockCase) vk.Verdict { return vk.Verdict{Skip: true} }, Quick: 1, Thorough: 1})
+
+func TestRealClock(t *testing.T) {
+	vk.ShardZeroOnly(t)
+	cmd := exec.Command(os.Args[0], "-test.run=^$")
+	cmd.Env = append(os.Environ(), "VK_C13_REALCLOCK=1")
+	out, err := cmd.CombinedOutput()
+	text := string(out)
+	vk.Rec.Count("realclock", 1, true, []string{"limiter-keeps-its-own-clock-running"}, func() any { return map[string]any{"child_output": strings.TrimSpace(text)} })
+	switch {
+	case strings.Contains(text, "REALCLOCK OK"):
+	case strings.Contains(text, "REALCLOCK FAIL: "):
+		msg := text[strings.Index(text, "REALCLOCK FAIL: ")+len("REALCLOCK FAIL: "):]
+		msg = strings.TrimSpace(strings.SplitN(msg, "\n", 2)[0])
+		path := vk.SaveReplay(propClock, ClockCase{Note: msg}, msg)
+		vk.Rec.Violation("realclock", path)
+		t.Errorf("VIOLATION-CANDIDATE property=%s test=realclock replay=%s\n%s", property, path, msg)
+	default:
+		t.Skipf("inconclusive: the child process gave no verdict (%v): %s", err, text)
+	}
+}
